@@ -11,25 +11,24 @@ import GHEVerif.Lemmas.Pipeline
 namespace GHEVerif.C05
 open GHEVerif GHEVerif.Search GHEVerif.Report GHEVerif.Pipeline
 
-/-- Drilling bound, arbitrary sign pattern.  If no two candidates evaluated at maximum height have
-    exactly the same excess, the candidate returned by the bisection path has the smallest
-    borehole count among **all** candidates this search evaluated at maximum height and found
-    feasible (since the F12 repair that includes the extra evaluation after the loop).  Hence
+/-- Drilling bound, arbitrary sign pattern, ties included.  The candidate returned by the bisection
+    path has the smallest borehole count among **all** candidates this search evaluated at maximum
+    height and found feasible (since the F12 repair that includes the extra evaluation after the
+    loop; since the F32 repair it holds also when several evaluated candidates have exactly the same
+    excess — before it the hypothesis "no two evaluated candidates tie" was needed, and on a plateau
+    the search returned the first-evaluated, i.e. the largest, of them).  Hence
     `count·H_returned ≤ count_j·maxH` for each of them. -/
 theorem bisect1D_smallest_evaluated (counts : List Nat) (E : Nat → Rat → Rat) (cfg : Cfg)
     (k : Nat) (h : Rat) (tr : List (Nat × Rat))
-    (hsel : bisect1D counts E cfg = (.selected k h .bisection, tr))
-    (hdist : ∀ a b, (a, cfg.maxH) ∈ tr → (b, cfg.maxH) ∈ tr → E a cfg.maxH = E b cfg.maxH → a = b) :
+    (hsel : bisect1D counts E cfg = (.selected k h .bisection, tr)) :
     ∀ j, (j, cfg.maxH) ∈ tr → E j cfg.maxH < 0 → counts.getD k 0 ≤ counts.getD j 0 := by
   obtain ⟨xr, ls, i, s, hu, _, _, hinv, hneg, hfin⟩ := bisect1D_bisection_path hsel
-  obtain ⟨k0, k', hf, _, _, hkmem, hk'mem, hEq, hmin⟩ :=
+  obtain ⟨k0, k', hf, _, _, hkmem, hk'mem, hEq, hmin, hcnt⟩ :=
     finish_selects (counts := counts) hinv (upperIndex_ok hu).1 hneg
   rw [hf] at hfin
   injection hfin with h1 h2
   injection h1 with h1 _ _
   subst h1; subst h2
-  have hkk : k' = k0 := hdist k' k0 hk'mem hkmem hEq
-  subst hkk
   intro j hj hjneg
   have := hmin j hj hjneg
   rw [lexLt_iff] at this
@@ -118,7 +117,7 @@ theorem bisect1D_first_feasible (counts : List Nat) (E : Nat → Rat → Rat) (c
       have hl' : s.l = kth - 1 := by omega
       have hinv := inv_final E cfg ls xr i s hl
       have hneg : ∃ kv ∈ s.mem, kv.2 < 0 := ⟨_, hinv.xrIn, hExr⟩
-      obtain ⟨k0, k', hf, hE0', hk0le, hkmem, hk'mem, hEq, hmin⟩ :=
+      obtain ⟨k0, k', hf, hE0', hk0le, hkmem, hk'mem, hEq, hmin, _⟩ :=
         finish_selects (counts := counts) hinv (upperIndex_ok hu).1 hneg
       -- kth itself was evaluated (it is the right end) and is feasible
       have hkth_tr : (kth, cfg.maxH) ∈ s.trace ++ [(i, cfg.maxH)] := by
@@ -148,19 +147,18 @@ theorem bisect1D_first_feasible (counts : List Nat) (E : Nat → Rat → Rat) (c
 
 
 /-- Nested lists (`Bisection2D`): the returned field is the 1D selection of its inner list, hence
-    (bisection path, pairwise distinct excesses) it has the fewest boreholes among the candidates of
-    that list evaluated at maximum height and found feasible. -/
+    (bisection path; ties allowed since the F32 repair) it has the fewest boreholes among the candidates
+    of that list evaluated at maximum height and found feasible. -/
 theorem bisect2D_inner_selection (nc : List (List Nat)) (E2 : Nat → Nat → Rat → Rat) (cfg : Cfg)
     (l k : Nat) (hh : Rat) (tr : Trace2) (h : bisect2D nc E2 cfg = (.selected l k hh, tr)) :
     ∃ p tr', bisect1D (nc.getD l []) (E2 l) cfg = (.selected k hh p, tr') ∧
       (p = .bisection →
-        (∀ a b, (a, cfg.maxH) ∈ tr' → (b, cfg.maxH) ∈ tr' → E2 l a cfg.maxH = E2 l b cfg.maxH → a = b) →
         ∀ j, (j, cfg.maxH) ∈ tr' → E2 l j cfg.maxH < 0 → (nc.getD l []).getD k 0 ≤ (nc.getD l []).getD j 0) := by
   obtain ⟨_, p, tr', h1⟩ := bisect2D_selected h
   refine ⟨p, tr', h1, ?_⟩
-  intro hp hdist
+  intro hp
   subst hp
-  exact bisect1D_smallest_evaluated _ _ cfg k hh tr' h1 hdist
+  exact bisect1D_smallest_evaluated _ _ cfg k hh tr' h1
 
 /-- Bi-zoned search: among the lists `search_successive` searched and sized, the returned design
     has the least total drilling (count × sized height), and its field is the 1D selection of its
@@ -229,5 +227,15 @@ example :
       { cap := none, cont := false, maxIter := 15, minH := 60, maxH := 135 })
       = (.selected 5 135 .bisection, [(0, 60), (0, 135), (8, 135), (4, 135), (6, 135), (5, 135), (3, 135)]) := by
   decide +kernel
+
+/-- A plateau (every feasible candidate has exactly the same excess, as when the lower limit binds at
+    the undisturbed ground temperature): the search returns the smallest evaluated feasible candidate,
+    index 3 with 6 boreholes — before the F32 repair it returned index 7 (20 boreholes), the first
+    evaluated candidate with that excess. -/
+example :
+    (bisect1D [1, 2, 4, 6, 9, 12, 16, 20]
+      (fun i h => if h = 135 then (if i < 3 then (1 : Rat) else -3 / 10) else 5)
+      { cap := none, cont := false, maxIter := 15, minH := 60, maxH := 135 }).1
+      = .selected 3 135 .bisection := by decide +kernel
 
 end GHEVerif.C05
